@@ -2,6 +2,7 @@ package main
 
 import (
 	"bytes"
+	"encoding/json"
 	"fmt"
 	"hash/fnv"
 	"os"
@@ -226,7 +227,9 @@ func (h *Hist) step(op *Op) {
 		}
 	}
 	if res.FoundErr != nil && res.Err == nil {
-		if h.callErr(op.Kind, res.Stage+":find", res.FoundErr, false) {
+		r2 := *res
+		r2.Err = res.FoundErr
+		if !h.expectedErr(op, pre, preLay, &r2) && h.callErr(op.Kind, res.Stage+":find", res.FoundErr, false) {
 			return
 		}
 	}
@@ -284,8 +287,10 @@ func (h *Hist) expectedErr(op *Op, pre *ref.Model, lay Layout, res *OpResult) bo
 			return true
 		}
 	case "trim":
-		if op.Sub == "age" && !h.cfg.Times && cls == "ErrNoIndex" {
-			return false // FindByAge falls back to NextOffset; an ErrNoIndex must not leak
+		// FindByAge asks OffsetByTime first; on a log without live messages that call may answer
+		// ErrInvalidOffset (C10 allows it), and the helper passes it on without selecting anything
+		if op.Sub == "age" && h.cfg.Times && len(pre.Live) == 0 && cls == "ErrInvalidOffset" {
+			return true
 		}
 	}
 	return false
@@ -1312,7 +1317,20 @@ func (h *Hist) doReopen(op *Op, final bool) {
 		}
 		h.cov.Distinct("c17", fmt.Sprintf("eager->%v", o.EffVer()))
 	}
-	h.observe(op, h.model, &OpResult{})
+	// Half of the time the log is NOT read right after the reopen, so that the following ops meet
+	// segments whose index has not been (re)loaded yet. The decision is stored in the op for replay.
+	if op.Note == "" {
+		op.Note = "observe"
+		if h.gen.r.Chance(0.5) {
+			op.Note = "no-observe"
+		}
+		h.ops[len(h.ops)-1].Note = op.Note
+	}
+	if op.Note != "no-observe" {
+		h.observe(op, h.model, &OpResult{})
+	} else {
+		h.cov.Add("reopen_without_read", 1)
+	}
 }
 
 func (h *Hist) afterMigrate(c ClosedOp, before map[string][]byte) {
@@ -1837,3 +1855,63 @@ func (h *Hist) doROSession(op *Op) {
 }
 
 var _ = time.Now
+
+// ---------------------------------------------------------------------------------------
+// replay of a recorded history (the op list is re-run, not the PRNG)
+
+func replayHistory(cfg *RunCfg, rep *Reporter, cov *Cov, raw []byte) {
+	var rec struct {
+		History string       `json:"history"`
+		Index   int          `json:"index"`
+		Cfg     ref.IndexCfg `json:"cfg"`
+		Ops     []Op         `json:"ops"`
+		Seed    int64        `json:"seed"`
+	}
+	if err := json.Unmarshal(raw, &rec); err != nil {
+		fmt.Fprintln(os.Stderr, "replay:", err)
+		return
+	}
+	prop := cfg.Property
+	r := NewRand(rec.Seed, strHash(prop), int64(rec.Index))
+	prof := profileFor(prop)
+	h := &Hist{id: "replay", prop: prop, scratch: cfg.Scratch, cov: cov, rep: rep, tier: cfg.Tier, seed: rec.Seed, idx: rec.Index, everNonDec: true, segVer: map[int64]ref.Version{}}
+	h.dir = filepath.Join(cfg.Scratch, "replay")
+	h.gen = newGenState(r, prof, rec.History)
+	// the key pool of the original history: every published key plus the fixed absent ones
+	seen := map[string]bool{}
+	h.gen.pool = nil
+	for _, op := range rec.Ops {
+		for _, m := range op.Msgs {
+			if !seen[string(m.Key)] {
+				seen[string(m.Key)] = true
+				h.gen.pool = append(h.gen.pool, m.Key)
+			}
+		}
+	}
+	h.cfg = rec.Cfg
+	h.model = &ref.Model{Cfg: h.cfg}
+	for i := range rec.Ops {
+		op := rec.Ops[i]
+		h.ops = append(h.ops, op)
+		fmt.Printf("replay step %d: %s\n", i, op.Short())
+		if i == 0 {
+			if !h.open(*op.Opts, true) {
+				break
+			}
+			continue
+		}
+		if op.Kind == "reopen" && op.Note == "final" {
+			h.doReopen(&op, true)
+		} else {
+			h.step(&op)
+		}
+		fmt.Printf("   model next=%d live=%v files=%v\n", h.model.Next, ref.OffsetsOf(h.model.Live), dirListing(h.dir))
+		if h.failed || h.aborted != "" {
+			fmt.Printf("   stopped: failed=%v aborted=%q\n", h.failed, h.aborted)
+			break
+		}
+	}
+	if h.log != nil {
+		kClose(h.log)
+	}
+}
